@@ -217,7 +217,20 @@ def _decimal_sign_table(repo, fd):
 def run(repo, rep, tier):
     consts_tree = repo.tree("constants.py")
     afp_node = repo.module_assign("constants.py", "ALLOWED_FORMATTING_PARAMETERS")
-    afp = {U(k).split(".")[-1]: try_const(v) for k, v in zip(afp_node.keys, afp_node.values)}
+    # the parameter lists may be written in place or as list(<named tuple of names>) / a named constant
+    cenv_ = {}
+    for st_ in consts_tree.body:
+        if isinstance(st_, ast.Assign) and len(st_.targets) == 1 and isinstance(st_.targets[0], ast.Name):
+            v_ = try_const(st_.value, cenv_, default=Ellipsis)
+            if isinstance(v_, (tuple, list)) and all(isinstance(x_, str) for x_ in v_):
+                cenv_[st_.targets[0].id] = v_
+
+    def _params_of(v):
+        if isinstance(v, ast.Call) and isinstance(v.func, ast.Name) and v.func.id in ("list", "tuple") and len(v.args) == 1 and not v.keywords:
+            v = v.args[0]
+        r_ = try_const(v, cenv_)
+        return list(r_) if isinstance(r_, (tuple, list)) else r_
+    afp = {U(k).split(".")[-1]: _params_of(v) for k, v in zip(afp_node.keys, afp_node.values)}
     ftm_node = repo.module_assign("constants.py", "FORMAT_TYPE_MAP")
     ftm = {U(k).split(".")[-1]: U(v).split(".")[-1] for k, v in zip(ftm_node.keys, ftm_node.values)}
     fcls = repo.cls("cell.py", "Formatting")
@@ -261,9 +274,35 @@ def run(repo, rep, tier):
                    "" if not unstored else f"{unstored} are read by {RENDERER[ft][0]} but not stored in the format archive of {t}: the displayed value uses the protobuf default instead of what was asked for",
                    key=f"C13.R1@stored:{t}")
     fa = repo.func("model.py", "_NumbersModel.format_archive")
-    s = U(fa).replace(" ", "")
-    ok = "attrs={x:getattr(formatting,x)forxinALLOWED_FORMATTING_PARAMETERS[format_type]}" in s and "attrs['format_type']=FORMAT_TYPE_MAP[format_type]" in s \
-        and "TSKArchives.FormatStructArchive(**attrs)" in s and "returnself._table_formats.lookup_key(table_id,format_archive)" in s
+    # the archive is FormatStructArchive(**{x: getattr(formatting, x) for x in ALLOWED[format_type]}, format_type=FORMAT_TYPE_MAP[format_type]),
+    # the dict and the type written in place, through a local, or the type stored into the dict first; its key in the table's format
+    # list is what is returned
+    def _bound(name_):
+        d_ = [n for n in body_walk(fa) if isinstance(n, ast.Assign) and len(n.targets) == 1 and U(n.targets[0]) == name_]
+        return d_[0].value if len(d_) == 1 else None
+    def _res(e_):
+        return _bound(e_.id) if isinstance(e_, ast.Name) and _bound(e_.id) is not None else e_
+    arch_calls = [c for c in body_walk(fa) if isinstance(c, ast.Call) and U(c.func).endswith("FormatStructArchive")]
+    ok = False
+    if len(arch_calls) == 1:
+        ac = arch_calls[0]
+        splat = [_res(k.value) for k in ac.keywords if k.arg is None]
+        comp_ok = len(splat) == 1 and isinstance(splat[0], ast.DictComp) and U(splat[0]).replace(" ", "") in (
+            "{x:getattr(formatting,x)forxinALLOWED_FORMATTING_PARAMETERS[format_type]}",)
+        if len(splat) == 1 and isinstance(splat[0], ast.DictComp) and not comp_ok:
+            g_ = splat[0].generators[0]
+            v_ = g_.target.id if isinstance(g_.target, ast.Name) else None
+            comp_ok = v_ is not None and not g_.ifs and U(splat[0].key) == v_ and U(splat[0].value).replace(" ", "") == f"getattr(formatting,{v_})" \
+                and U(g_.iter).replace(" ", "") == "ALLOWED_FORMATTING_PARAMETERS[format_type]" and len(splat[0].generators) == 1
+        ft_kw = [k for k in ac.keywords if k.arg == "format_type"]
+        ft_store = [n for n in body_walk(fa) if isinstance(n, ast.Assign) and isinstance(n.targets[0], ast.Subscript) and try_const(n.targets[0].slice, default=None) == "format_type"]
+        type_ok = (len(ft_kw) == 1 and U(ft_kw[0].value).replace(" ", "") == "FORMAT_TYPE_MAP[format_type]" and not ft_store) or (
+            not ft_kw and len(ft_store) == 1 and U(ft_store[0].value).replace(" ", "") == "FORMAT_TYPE_MAP[format_type]" and ft_store[0].lineno < ac.lineno)
+        others = [k for k in ac.keywords if k.arg not in (None, "format_type")] + list(ac.args)
+        rets_ = [r for r in body_walk(fa) if isinstance(r, ast.Return) and r.value is not None]
+        ret_ok = len(rets_) == 1 and isinstance(rets_[0].value, ast.Call) and U(rets_[0].value.func) == "self._table_formats.lookup_key" and len(rets_[0].value.args) == 2 \
+            and U(rets_[0].value.args[0]) == "table_id" and _res(rets_[0].value.args[1]) is ac
+        ok = comp_ok and type_ok and not others and ret_ok
     rep.ob("C13.R1", fa, "format_archive stores exactly the allowed parameters of the type plus the mapped format type", ok, "", key="C13.R1@format_archive")
     # format_archive is memoised on the text of its arguments (numbers_cache.cache joins str(arg)): the text of a Formatting
     # must tell apart any two objects that differ in a field the archive is built from, for whatever format type is asked
@@ -508,8 +547,15 @@ def run(repo, rep, tier):
             src_ = next((repo.module_assign(m_, src_.id) for m_ in ("cell.py", "constants.py") if _has_assign(repo, m_, src_.id)), None)
         if src_ is None:
             continue
+        # names imported from the standard ``string`` module stand for their texts
+        import string as _string
+        senv_ = {}
+        for imp_ in [n for n in repo.tree("cell.py").body + repo.tree("constants.py").body if isinstance(n, ast.ImportFrom) and n.module == "string"]:
+            for al_ in imp_.names:
+                if isinstance(getattr(_string, al_.name, None), str):
+                    senv_[al_.asname or al_.name] = getattr(_string, al_.name)
         try:
-            val_ = _fold_text_table(src_)
+            val_ = _fold_text_table(src_, senv_)
         except AnalysisError:
             continue
         if isinstance(val_, (list, str)) and len(val_) >= 10 and all(isinstance(c_, str) and len(c_) == 1 for c_ in val_):
@@ -535,6 +581,8 @@ def run(repo, rep, tier):
 
 
 VARIANTS = [
+    T("currency-symbol-by-try-except", "cell.py", '    if number_format.currency_code in CURRENCY_SYMBOLS:\n        symbol = CURRENCY_SYMBOLS[number_format.currency_code]\n    else:\n        symbol = number_format.currency_code + " "\n', "    try:\n        symbol = CURRENCY_SYMBOLS[number_format.currency_code]\n    except KeyError:\n        symbol = number_format.currency_code + \" \"\n"),
+    M("currency-symbol-by-try-except-no-space", "cell.py", '    if number_format.currency_code in CURRENCY_SYMBOLS:\n        symbol = CURRENCY_SYMBOLS[number_format.currency_code]\n    else:\n        symbol = number_format.currency_code + " "\n', "    try:\n        symbol = CURRENCY_SYMBOLS[number_format.currency_code]\n    except KeyError:\n        symbol = number_format.currency_code\n", "C13.R2"),
     M("digit-table-two-letters-swapped", "cell.py", 'INT_TO_BASE_CHAR = [str(x) for x in range(10)] + [chr(x) for x in range(ord("A"), ord("Z") + 1)]', 'INT_TO_BASE_CHAR = list("0123456789ABCDEFGHIJKLMNOPQRSTVUWXYZ")', "C13.R4"),
     M("formatting-repr-leaves-fields-out", "cell.py", "@dataclass\nclass CustomFormatting:", "    def __repr__(self) -> str:\n        return f\"Formatting(type={self.type.name}, decimal_places={self.decimal_places})\"\n\n\n@dataclass\nclass CustomFormatting:", "C13.R1"),
     T("defaults-conditional-expression", "cell.py", '            if self.type == FormattingType.CURRENCY:\n                self.decimal_places = 2\n            else:\n                self.decimal_places = DECIMAL_PLACES_AUTO\n', "            self.decimal_places = 2 if self.type == FormattingType.CURRENCY else DECIMAL_PLACES_AUTO\n"),
